@@ -419,6 +419,10 @@ func (o *oracleUnique) after(r *hRun, step, res bson.D) error {
 	for _, h := range nsList(cat) {
 		c := cat.Namespaces[h]
 		docs := plainDocs(c)
+		// the index that carries the _id constraint is always there
+		if ix, ok := c.Indexes["_id_"]; !ok || !ix.Config().Unique {
+			return fmt.Errorf("%s: the unique _id_ index is missing", h)
+		}
 		// _id is unique for all documents, whatever indexes exist
 		for i := range docs {
 			for j := i + 1; j < len(docs); j++ {
